@@ -6,6 +6,17 @@ func Seeds() [][]byte {
 	fb := func(typ string, version byte, flags uint32, rest ...[]byte) []byte {
 		return Box(typ, Cat(append([][]byte{vf(version, flags)}, rest...)...))
 	}
+	// esds whose ES descriptor (ES_ID 1, a DecoderConfigDescriptor of 13 bytes) ends with `tail`
+	esdsTail := func(tail ...byte) []byte {
+		body := Cat([]byte{0, 1, 0, 4, 13, 0x40, 0x15, 0, 0, 0, 0, 0, 0, 1, 0, 0, 0, 2}, tail)
+		return fb("esds", 0, 0, []byte{3, byte(len(body))}, body)
+	}
+	mp4a := func(children ...[]byte) []byte {
+		pre := make([]byte, 28)
+		pre[7], pre[17], pre[19], pre[24], pre[25] = 1, 2, 16, 0xbb, 0x80
+		return Box("mp4a", Cat(append([][]byte{pre}, children...)...))
+	}
+	btrt := Box("btrt", Cat(U32(1), U32(2), U32(3)))
 	return [][]byte{
 		fb("mehd", 0, 0, U32(1000)), fb("mehd", 1, 0, U64(1<<40)),
 		fb("elst", 0, 0, U32(1), U32(100), U32(0), U16(1), U16(0)),
@@ -71,6 +82,14 @@ func Seeds() [][]byte {
 		Box("ilst", Box("\xa9too", Box("data", Cat(U32(1), U32(0), []byte("Lavf"))))),
 		Box("data", Cat(U32(1), U32(0), []byte("x"))),
 		fb("esds", 0, 0, []byte{3, 25, 0, 1, 0, 4, 17, 0x40, 0x15, 0, 0, 0, 0, 0, 0, 0, 0, 0, 0, 0, 5, 2, 0x11, 0x90, 6, 1, 2}),
+		// an ES descriptor that ends inside a descriptor header or inside a descriptor's fixed fields (size field `80` /
+		// `80 80` with nothing behind it, a lone tag, a DecoderConfigDescriptor announcing 5 of its 13 bytes), alone and
+		// with a sibling box BEHIND the esds box: the sibling's bytes must not complete the descriptor (finding C03-F7,
+		// repo commit 27ea537: DecodeBoxSR accepted and reproduced what DecodeBox refuses)
+		esdsTail(6, 0x80), esdsTail(6, 0x80, 0x80), esdsTail(6), esdsTail(6, 1, 2, 4, 5, 1, 2, 3, 4, 5),
+		mp4a(esdsTail(6, 0x80), btrt), mp4a(esdsTail(6, 1, 2, 7, 0x81), btrt), mp4a(esdsTail(6, 1, 2, 6, 0x80, 0x80), btrt),
+		mp4a(esdsTail(6, 1, 2, 4, 5, 1, 2, 3, 4, 5), btrt), mp4a(esdsTail(6), btrt), mp4a(esdsTail(6, 1, 2), btrt),
+		fb("stsd", 0, 0, U32(1), mp4a(esdsTail(6, 0x80, 0x80), btrt)),
 		Box("uuid", Cat([]byte{0x6d, 0x1d, 0x9b, 0x05, 0x42, 0xd5, 0x44, 0xe6, 0x80, 0xe2, 0x14, 0x1d, 0xaf, 0xf7, 0x57, 0xb2}, vf(1, 0), U64(10), U64(20))),
 		Box("uuid", Cat(make([]byte, 16), []byte("unknown uuid payload"))),
 		fb("emib", 0, 0, U32(0), U32(10), U32(100), U32(1), []byte("urn:x\x00"), []byte("v\x00"), []byte("m")),
